@@ -94,7 +94,8 @@ def extract(repo, profile='dev', target_dir=None, use_cache=True, log=None):
             shutil.rmtree(outdir)
         os.makedirs(outdir)
         if target_dir is None:
-            target_dir = os.path.join(CACHE, 'target-' + profile)
+            # one target directory per lock: /repo itself, and scratch copies (seeded changes, controls)
+            target_dir = os.path.join(CACHE, ('target-' if is_main else 'target-scratch-') + profile)
         os.makedirs(target_dir, exist_ok=True)
         # never trust a warm cache for the members themselves
         for m in MEMBERS:
